@@ -1379,6 +1379,109 @@ def admitted_tuples(pc, preds, universes):
     return out
 
 
+def implied(pc, pred, cap=20000):
+    """Does the path condition force the truth value of the boolean atom selected by pred(atom)? Returns True / False when
+    every assignment of its atoms that satisfies the path condition gives the atom that value, None when it is not forced
+    (or the condition is too large). `is` atoms over the same scrutinee share one variable ranging over the alternatives
+    they mention (plus "anything else"), so `Some(_) | None`, `Some(c)` and `None` are related as they are in the code."""
+    import itertools
+    atoms = []
+
+    def collect(f):
+        if f[0] == "atom":
+            atoms.append(f[1])
+        elif f[0] == "not":
+            collect(f[1])
+        elif f[0] in ("and", "or"):
+            for g in f[1]:
+                collect(g)
+    for f, _ in pc:
+        collect(f)
+
+    def bkey(a):
+        if a.kind == "cmp":
+            return ("cmp", a.op, id(a.l.node), id(a.r.node))
+        return (a.kind, id(a.node))
+    # the same test written twice (two guards `if name.is_empty()`) is one variable
+    canon = {}
+    reps = []
+
+    def bkey(a, _orig=bkey):
+        k0 = _orig(a)
+        if k0 in canon:
+            return canon[k0]
+        for k1, a1 in reps:
+            if a1.kind == a.kind and a.kind != "cmp" and a.node is not None and a1.node is not None and _struct_eq(a.node, a1.node):
+                canon[k0] = k1
+                return k1
+            if a1.kind == a.kind == "cmp" and a.op == a1.op and _struct_eq(a.l.node, a1.l.node) and _struct_eq(a.r.node, a1.r.node):
+                canon[k0] = k1
+                return k1
+        reps.append((k0, a))
+        canon[k0] = k0
+        return k0
+    groups = {}      # scrutinee key -> set of alternative tuples
+    bools = {}
+    target = None
+    for a in atoms:
+        if a.kind == "is":
+            k = tuple(id(v.node) for v in a.scruts)
+            groups.setdefault(k, set()).update(tuple(x) for x in a.alts if not is_catch_all(x))
+        elif a.kind == "forall":
+            bools[("forall", id(a.node))] = a
+        else:
+            bools[bkey(a)] = a
+            if pred(a):
+                target = bkey(a)
+    if target is None:
+        return None
+    gkeys = sorted(groups, key=str)
+    doms = [sorted(groups[k], key=str) + [("<other>",)] for k in gkeys]
+    bkeys = sorted(bools, key=str)
+    size = 2 ** len(bkeys)
+    for d in doms:
+        size *= len(d)
+    if size > cap:
+        return None
+
+    def ev(f, env):
+        k = f[0]
+        if k == "true":
+            return True
+        if k == "false":
+            return False
+        if k == "atom":
+            a = f[1]
+            if a.kind == "is":
+                val = env[tuple(id(v.node) for v in a.scruts)]
+                for alt in a.alts:
+                    if is_catch_all(alt) or tuple(alt) == val:
+                        return True
+                    # a more general alternative covers a more specific value: 'Option::Some' covers 'Option::Some(lit..)'
+                    if len(alt) == len(val) and all(x == "_" or x == y or str(y).startswith(str(x) + "(") for x, y in zip(alt, val)):
+                        return True
+                return False
+            if a.kind == "forall":
+                return env[("forall", id(a.node))]
+            return env[bkey(a)]
+        if k == "not":
+            return not ev(f[1], env)
+        vals = [ev(g, env) for g in f[1]]
+        return all(vals) if k == "and" else any(vals)
+    seen = set()
+    for combo in itertools.product(*doms):
+        for bits in itertools.product((True, False), repeat=len(bkeys)):
+            env = dict(zip(gkeys, combo))
+            env.update(zip(bkeys, bits))
+            if all(ev(f, env) == pol for f, pol in pc):
+                seen.add(env[target])
+                if len(seen) == 2:
+                    return None
+    if len(seen) == 1:
+        return next(iter(seen))
+    return None
+
+
 def enum_universe(crate, path):
     a = crate.adt(path)
     if not a:
